@@ -39,6 +39,7 @@ func PlanCases(prop, tier string, seed int64) (cases []*Case, rule []string) {
 		add(n(1, 6), "two segments with 300 fields each (field ids across the 127/128 and 255/256 boundaries, a location in every field): every dictionary opened, merged with a deletion, reloaded", func() *Case { return g.WideSegment() })
 		add(n(1, 6), "520-700 documents carrying the same field twice with the same term (seen twice as often as it has documents): dump, layout, iterator", func() *Case { return g.RepeatedFieldBig() })
 		add(n(2, 8), "a field whose name is the empty string: dumps, term lists that start with it, reloaded, merged", func() *Case { return g.EmptyFieldName() })
+		add(n(2, 12), "field names of 127, 128, 129 and 200 bytes: built, merged by the merger, reloaded; footer (CRC-32 recomputed by the model) and loader models on every file, the merger's own bytes included", func() *Case { return g.LongFieldName() })
 	case "C02":
 		add(n(140, 2000), "build 1-4 batches, merge them (also merges of merges) with random deletions and dump the result", func() *Case { return g.MergeObs() })
 		add(n(12, 150), "segments with identical field lists merged without deletions (stored-field byte-copy path across 128-document blocks)", func() *Case { return g.CopyPathMerge() })
@@ -61,6 +62,7 @@ func PlanCases(prop, tier string, seed int64) (cases []*Case, rule []string) {
 		add(n(1, 6), "two segments with 300 fields each (field ids across the 127/128 and 255/256 boundaries, a location in every field): every dictionary opened, merged with a deletion, reloaded", func() *Case { return g.WideSegment() })
 		add(n(3, 12), "a term without locations in two inputs of which only one posting survives, in the document that becomes number 0, while the last input that has the term loses all its postings for it", func() *Case { return g.LastInputDropped() })
 		add(n(7, 14), "the smallest files ice writes (one document with only _id, with or without doc values or stored value, the empty term alone, no _id at all): built, merged, the merge output loaded from memory and from a file", func() *Case { return g.TinyShapes() })
+		add(n(3, 12), "a posting without locations whose frequency is 2^32+1 / 2^33+1 / 2^32, alone in its term: flat merge, both bracketings, single-segment merges, full dumps", func() *Case { return g.HugeFreqAssoc() })
 	case "C03":
 		add(n(140, 2000), "merge with random deletion sets (nil, empty, sparse, dense, everything) and report DocumentNumbers", func() *Case { return g.MergeObs() })
 		add(n(12, 150), "segments with identical field lists merged without deletions (byte-copy path across 128-document blocks): content at the reported numbers", func() *Case { return g.CopyPathMerge() })
@@ -76,12 +78,14 @@ func PlanCases(prop, tier string, seed int64) (cases []*Case, rule []string) {
 		add(n(4, 40), "a zero-document merge output that kept its field list, reloaded and merged in every position with a segment that has fewer fields", func() *Case { return g.ZeroDocFieldsMerge() })
 		add(n(7, 28), "the smallest files ice writes (one document with only _id, with or without doc values or stored value, the empty term alone, no _id at all): built, merged, loaded from memory and from a file; the loader models run on the real bytes", func() *Case { return g.TinyShapes() })
 		add(n(1, 6), "a merge whose term cardinalities sit around the 1,024-posting boundary of the adaptive chunk mode (an empty first term after a long last term), also reloaded", func() *Case { return g.ChunkBoundaryMerge() })
+		add(n(2, 12), "field names of 127, 128, 129 and 200 bytes: built, merged by the merger, reloaded; footer (CRC-32 recomputed by the model) and loader models on every file, the merger's own bytes included", func() *Case { return g.LongFieldName() })
 	case "C05":
 		add(n(150, 2500), "a built/loaded/merged segment and 8 iterators with random exclusions, flags, Next/Advance sequences", func() *Case { return g.IterCase(8) })
 		add(n(2, 20), "merges whose term cardinalities sit around the 1,024-posting boundary of the adaptive chunk mode (writer and reader must derive the same chunk size)", func() *Case { return g.ChunkBoundaryMerge() })
 		add(n(8, 120), "twin segments (same shape and offsets, different term bytes, frequencies or stored values): lists, iterators, doc-value readers and the stored-field context carried from one to the other, then merged", func() *Case { return g.TwinCase() })
 		add(n(3, 12), "a term with 1,023 / 1,024 / 2,047 postings in a built input plus one 1-hit posting in a previously merged input whose document is (or is not) deleted in this merge: writer and reader must agree on the chunk size", func() *Case { return g.OneHitBoundary() })
 		add(n(3, 12), "a term without locations in two inputs of which only one posting survives, in the document that becomes number 0, while the last input that has the term loses all its postings for it", func() *Case { return g.LastInputDropped() })
+		add(n(4, 40), "chunk modes 2-5, a term in every document: Next up to the last posting of a chunk, Advance to a later posting of the next chunk, Next; a term without postings in chunk 0 advanced into from a fresh iterator (exclusion-free path, every flag)", func() *Case { return g.ChunkEdgeWalk() })
 	case "C13":
 		add(n(150, 2500), "histories of 14 lookups reusing postings lists and iterators across terms, encodings and flags", func() *Case { return g.IterCase(14) })
 		add(n(40, 600), "doc-value readers reused across visit sequences", func() *Case { return g.DVCase(false) })
@@ -90,6 +94,7 @@ func PlanCases(prop, tier string, seed int64) (cases []*Case, rule []string) {
 		add(n(40, 600), "dictionary enumeration on reused dictionaries", func() *Case { return g.DictCase() })
 		add(n(12, 150), "twin segments (same shape and offsets, different term bytes, frequencies or stored values): lists, iterators, doc-value readers and the stored-field context carried from one to the other, then merged", func() *Case { return g.TwinCase() })
 		add(n(1, 8), "1,200-1,400 documents, a doc-value field whose first 1,024-document chunk is empty, a doc-value field without any term, a merge deleting every document with a value; built, merged, reloaded from a file", func() *Case { return g.EmptyFirstDVChunk(false) })
+		add(n(4, 40), "chunk modes 2-5, a term in every document: Next up to the last posting of a chunk, Advance to a later posting of the next chunk, Next; a term without postings in chunk 0 advanced into from a fresh iterator (exclusion-free path, every flag)", func() *Case { return g.ChunkEdgeWalk() })
 	case "C06":
 		add(n(130, 2000), "stored-field visits in random order with early stop and out-of-range numbers", func() *Case { return g.StoredCase(false) })
 		add(n(12, 200), "the same on 120-420 documents (several 128-document blocks, short records)", func() *Case { return g.StoredCase(true) })
@@ -118,6 +123,7 @@ func PlanCases(prop, tier string, seed int64) (cases []*Case, rule []string) {
 		add(n(120, 2000), "CollectionStats of every field of built, merged and reloaded segments", func() *Case { return g.StatsCase() })
 	case "C11":
 		add(n(60, 800), "persist every built, merged and reloaded segment of a random merge tree; the model parses the footer of the real bytes and recomputes the CRC-32; loaded segments are persisted again", func() *Case { return g.FooterCase() })
+		add(n(2, 12), "field names of 127, 128, 129 and 200 bytes: built, merged by the merger, reloaded; footer (CRC-32 recomputed by the model) and loader models on every file, the merger's own bytes included", func() *Case { return g.LongFieldName() })
 	case "C17":
 		add(n(3, 30), "single-segment and two-segment merges of 1,030-2,400 document segments (dense terms above 1,024 postings with deletions, an empty doc-value chunk): the model is the flat merge", func() *Case { return g.BigMerge() })
 		add(n(70, 900), "2-4 built segments with random deletions: flat merge, two left bracketings (deletions inside / translated through DocumentNumbers), right bracketing, single-segment merges; full dumps of all variants", func() *Case { return g.AssocCase() })
@@ -125,6 +131,7 @@ func PlanCases(prop, tier string, seed int64) (cases []*Case, rule []string) {
 		add(n(40, 600), "the dictionary enumerator (k-way merge) over 1-4 real vellum FSTs (empty dictionaries, the empty term alone or with others, 1-hit values) walked with Current / GetLowIdxsAndValues / Next and compared with the enumerator model", func() *Case { return g.UnitEnumerator() })
 		add(n(5, 60), "a first input with every field and a later input (no deletions) with a strict subset of them, merged in several orders and as merges of merges: stored values must keep their field", func() *Case { return g.SubsetFieldsMerge() })
 		add(n(3, 9), "a term with 1,023 / 1,024 / 2,047 postings in a built input plus one 1-hit posting in a previously merged input whose document is (or is not) deleted in this merge: writer and reader must agree on the chunk size", func() *Case { return g.OneHitBoundary() })
+		add(n(3, 12), "a posting without locations whose frequency is 2^32+1 / 2^33+1 / 2^32, alone in its term: flat merge, both bracketings, single-segment merges, full dumps", func() *Case { return g.HugeFreqAssoc() })
 	case "C18":
 		add(n(150, 2500), "DocsMatchingTerms over mixed, repeated, unknown-field and unknown-term lists", func() *Case { return g.DocsMatchingCase() })
 		add(n(1, 6), "two segments with 300 fields each (field ids across the 127/128 and 255/256 boundaries, a location in every field): every dictionary opened, merged with a deletion, reloaded", func() *Case { return g.WideSegment() })
